@@ -23,6 +23,7 @@ func c14Candidates(lvl int) []string {
 	names := gen.Lit("alpha", "beta", "pre", "rc", "cvs", "svn", "git", "hg", "p")
 	sfx := gen.Seq(gen.Lit("_"), names, gen.Opt(gen.Lit("1", "2")))
 	sfxS := gen.Seq(gen.Lit("_"), gen.Lit("alpha", "rc", "cvs", "git", "p"), gen.Opt(gen.Lit("1")))
+	sfxBig := gen.Seq(gen.Lit("_"), names, gen.Lit("1048576", "20230101", "2147483647"))
 	rev := gen.Opt(gen.Lit("-r0", "-r1", "-r2"))
 	small := gen.Lit("1", "1.0", "1.1", "1.0.0")
 	g := gen.Alt(
@@ -31,6 +32,7 @@ func c14Candidates(lvl int) []string {
 		gen.Seq(gen.Lit("1.0", "1"), gen.Opt(gen.Lit("a")), sfxS, sfxS, gen.Opt(gen.Lit("-r1"))),
 		gen.Seq(gen.Lit("1.0"), sfxS, sfxS, sfxS),
 		gen.Seq(small, rev),
+		gen.Seq(gen.Lit("1.0", "1"), sfxBig, gen.Opt(gen.Lit("-r1"))),
 	)
 	if lvl > 0 {
 		g = gen.Alt(g,
